@@ -322,12 +322,57 @@ def t7_programs(tier):
                {"t": "T7", "c_wait": cw, "c_after": ca, "p_end": pe, "deep": deep})
 
 
+
+def t8_programs(tier):
+    """action names that contain the verbs of the event protocol (Start / Stop / Finished / Started / Updated) as substrings"""
+    names = ["QuickStartBotAction", "NonStopMusicAction", "FinishedGoodsAction", "RestartedServiceAction", "NoChangeBotAction"]
+    for an in names:
+        for form in ("when-scope", "plain", "shared"):
+            if form == "when-scope":
+                p = "flow p\n" + ind([f"when {an}()", "  send X1()", "or when E1()", "  send X2()", "match E2()"])
+                main = "flow main\n" + ind(["start p", "match Never()"])
+                src = p + "\n" + main
+            elif form == "plain":
+                p = "flow p\n" + ind([f"start {an}()", "match E1()", "match E2()"])
+                main = "flow main\n" + ind(["start p", "match Never()"])
+                src = p + "\n" + main
+            else:
+                s1 = "flow s1\n" + ind(["match E1()", f"start {an}()", "match E2()"])
+                s2 = "flow s2\n" + ind(["match E1()", f"start {an}()", "match E3()"])
+                main = "flow main\n" + ind(["start s1", "start s2", "match Never()"])
+                src = s1 + "\n" + s2 + "\n" + main
+            yield (src, {}, {}, ["E1", "E2", "E3"], [("StopFlow", {"flow_id": "p"})] if form != "shared" else [], {"t": "T8", "action": an, "form": form})
+
+
+def t9_programs(tier):
+    """a child reacts to the same event as its parent / activator, more specifically (so it is advanced first), and does
+    something that is only carried out later in the same step: starts a grandchild, or ends and asks for its restart"""
+    for how in ("start c", "await c", "activate c", "start c and d"):
+        for c_body in (["start ActCAction()", "match Never2()"], ["await ActCAction()"], ["match E3()"]):
+            for m_end in ("finish", "abort"):
+                c = "flow c\n" + ind(c_body)
+                d = "flow d\n" + ind(["start ActDAction()", "match Never2()"])
+                p = "flow p\n" + ind(["match Ev(x=1)", how, "match Never()"])
+                m = "flow m\n" + ind(["start p", "match Ev()"] + (["abort"] if m_end == "abort" else []))
+                main = "flow main\n" + ind(["start m", "match Never()"])
+                yield (c + "\n" + d + "\n" + p + "\n" + m + "\n" + main, {}, {}, [("Ev", {"x": 1}), ("Ev", {}), "E3"], [], {"t": "T9", "form": "grandchild", "how": how, "c": c_body, "m_end": m_end})
+    for f_body in (["start ActFAction()", "match Ev(x=1)"], ["match Ev(x=1)"], ["match Ev(x=1)", "start ActFAction()", "match E3()"]):
+        for a_end in ("finish", "abort"):
+            for two in (False, True):
+                f = "flow f\n" + ind(f_body)
+                a = "flow a\n" + ind(["activate f", "match Ev()"] + (["abort"] if a_end == "abort" else []))
+                a2 = "flow a2\n" + ind(["activate f", "match E3()"])
+                main = "flow main\n" + ind(["start a"] + (["start a2"] if two else []) + ["match Never()"])
+                yield (f + "\n" + a + "\n" + (a2 + "\n" if two else "") + main, {"f": ["a", "a2"] if two else ["a"]}, {}, [("Ev", {"x": 1}), ("Ev", {}), "E3"], [],
+                       {"t": "T9", "form": "activated", "f": f_body, "a_end": a_end, "two_activators": two})
+
+
 def explore(task):
     src, activators, once, evnames, internals, info, depth = task[:7]
     with_started = task[7] if len(task) > 7 else False
     # task[8]: the events a step emits are fed back as input events, as RuntimeV2_x.process_events does
     v2x.FEED_BACK[0] = bool(task[8]) if len(task) > 8 else False
-    fixed = [("ext", n, {}) for n in evnames] + [("internal", n, a) for n, a in internals]
+    fixed = [("ext", n, {}) if isinstance(n, str) else ("ext", n[0], dict(n[1])) for n in evnames] + [("internal", n, a) for n, a in internals]
 
     def alphabet(state, node):
         if node.depth == 0:
@@ -365,7 +410,7 @@ def conformance_task(task):
     except Exception as e:
         res["viol"].append(("harness:conformance-program-rejected", repr(e), {"source": src}))
         return res
-    fixed = [("ext", n, {}) for n in evnames] + [("internal", n, a) for n, a in internals]
+    fixed = [("ext", n, {}) if isinstance(n, str) else ("ext", n[0], dict(n[1])) for n in evnames] + [("internal", n, a) for n, a in internals]
     loop = asyncio.new_event_loop()
     try:
         def real_step(state, conc, uid_n):
@@ -426,7 +471,7 @@ def conformance_task(task):
 def tasks(tier):
     out = []
     d = {"quick": (4, 5, 5, 4), "thorough": (6, 7, 7, 6)}[tier]
-    for gen, depth in ((t1_programs, d[0]), (t2_programs, d[1]), (t3_programs, d[2]), (t4_programs, d[3]), (t5_programs, d[1]), (t6_programs, d[2]), (t7_programs, d[0])):
+    for gen, depth in ((t1_programs, d[0]), (t2_programs, d[1]), (t3_programs, d[2]), (t4_programs, d[3]), (t5_programs, d[1]), (t6_programs, d[2]), (t7_programs, d[0]), (t8_programs, d[0]), (t9_programs, d[0])):
         for src, act, once, evs, ints, info in gen(tier):
             out.append((src, act, once, evs, ints, info, depth))
     # the same scope / shared-action programs with action Started events in the alphabet
